@@ -3,20 +3,26 @@ From Verif Require Import Base.Run C01.Model C01.Spec.
 Import ListNotations.
 
 (* one case = one Saml2Client (one configuration, reaching it in one way: Model.client) consuming a
-   sequence of messages; for every message the identity (or not) observed on the real implementation *)
-Definition case := (client * list (msg * bool))%type.
+   sequence of messages (each a Response with a LIST of assertions, round 5); for every message the identity
+   (or not) observed on the real implementation *)
+Definition case := (client * list (mmsg * bool))%type.
 
 Definition cfg (wr wa wor only : optv) : config := {| c_wr := wr; c_wa := wa; c_wor := wor; c_only := only |}.
 Definition sg (k : key) (i : kinfo) (c : bool) : option sgn := Some {| signer := k; ki := i; corrupt := c; shp := std |}.
 (* a signature of another shape: References, CanonicalizationMethod, Transforms, ds:Object, second ds:Signature *)
 Definition sgx (k : key) (i : kinfo) (c : bool) (rf : list rtarget) (ca : calg) (t : list talg) (o : bool) (x : extra) : option sgn :=
   Some {| signer := k; ki := i; corrupt := c; shp := {| refs := rf; c14n := ca; trs := t; obj := o; xsig := x |} |}.
-Definition st (rw aw : who) (r a : option sgn) (e : bool) (b : bind) (obs : bool) : msg * bool :=
-  ({| r_who := rw; a_who := aw; m_rs := r; m_as := a; m_enc := e; m_bind := b |}, obs).
+(* a Response with one assertion (the messages of rounds 1-4) *)
+Definition st (rw aw : who) (r a : option sgn) (e : bool) (b : bind) (obs : bool) : mmsg * bool :=
+  (embed {| r_who := rw; a_who := aw; m_rs := r; m_as := a; m_enc := e; m_bind := b |}, obs).
+(* round 5: a Response with the given assertions (issuer, signature, sent encrypted), in document order *)
+Definition asr (w : who) (s : option sgn) (e : bool) : asn := {| x_who := w; x_sig := s; x_enc := e |}.
+Definition stm (rw : who) (r : option sgn) (l : list asn) (b : bind) (obs : bool) : mmsg * bool :=
+  ({| mm_rwho := rw; mm_rs := r; mm_asl := l; mm_bind := b |}, obs).
 (* the clients of rounds 1-3: an SPConfig loaded from a dict and handed over as config= *)
-Definition mk (c : config) (steps : list (msg * bool)) : case := (client_of c, steps).
+Definition mk (c : config) (steps : list (mmsg * bool)) : case := (client_of c, steps).
 (* round 4: delivery, assigned context, second service section, the three options as written *)
-Definition mkc (d : deliver) (a : option octx) (p : bool) (wr wa wor : written) (only : optv) (steps : list (msg * bool)) : case :=
+Definition mkc (d : deliver) (a : option octx) (p : bool) (wr wa wor : written) (only : optv) (steps : list (mmsg * bool)) : case :=
   ({| k_deliver := d; k_assigned := a; k_proxy := p; k_wr := wr; k_wa := wa; k_wor := wor; k_only := only |}, steps).
 
 (* the four signature states of the single-message truth table, as in round 1 *)
@@ -28,16 +34,16 @@ Definition sUntrusted := sgn_of Untrusted.
 Definition bool_list_eqb (a b : list bool) : bool :=
   Nat.eqb (length a) (length b) && forallb (fun p => Bool.eqb (fst p) (snd p)) (combine a b).
 
-Definition agrees (c : case) : bool := bool_list_eqb (client_run (fst c) (map fst (snd c))) (map snd (snd c)).
-Definition holds (c : case) : bool := spec_client_b (fst c) (map fst (snd c)) (map snd (snd c)).
+Definition agrees (c : case) : bool := bool_list_eqb (client_run_mm (fst c) (map fst (snd c))) (map snd (snd c)).
+Definition holds (c : case) : bool := spec_client_mm_b (fst c) (map fst (snd c)) (map snd (snd c)).
 Definition cls (c : case) : nat := 0.
 Definition run := run_cases agrees holds cls.
-(* per message: (model, observed, satisfied, otherwise valid, state of the Response signature, of the assertion's) *)
+(* per message: (model, observed, satisfied, otherwise valid, state of the Response signature, of each assertion's) *)
 Definition explain (c : case) :=
   (current_ctx (fst c), read_config (fst c), meant_config (fst c),
    match read_config (fst c), meant_config (fst c) with
    | Some rc, Some mc =>
-       map (fun p => (parse_message rc (fst p), snd p, satisfied_m_b mc (fst p),
-                      otherwise_valid_b (fst p), r_state mc (fst p), a_state mc (fst p))) (snd c)
-   | _, _ => map (fun p => (false, snd p, false, false, Absent, Absent)) (snd c)    (* no client: no identity *)
+       map (fun p => (parse_mmsg rc (fst p), snd p, satisfied_mm_b mc (fst p),
+                      otherwise_valid_mm_b (fst p), rr_state mc (fst p), map (x_state mc) (mm_asl (fst p)))) (snd c)
+   | _, _ => map (fun p => (false, snd p, false, false, Absent, @nil sigst)) (snd c)    (* no client: no identity *)
    end).
